@@ -52,10 +52,12 @@ func limited(kind string) bool {
 
 var contents = []string{
 	"", "x\n", "two\nlines\n", "hello world\n", "é ü\n", "\xff\xfe raw bytes\n", ">looks quoted\n", "tab\there\n", "a\r\nb\r\n", "\n", "\n\n", "  leading\n",
+	// a line at the size of a typical line buffer, and one beyond it
+	strings.Repeat("L", 4096) + "\n", "short\n" + strings.Repeat("M", 5000) + "\nend\n",
 	// no final newline (representable only with the newline txtar adds)
 	"no newline", "x",
 	// marker lines (need quoting)
-	"-- marker --\n", "a\n-- m --\nb\n", "--  spaced  --\n", "-- m --\r\n",
+	"-- marker --\n", "a\n-- m --\nb\n", "--  spaced  --\n", "-- m --\r\n", strings.Repeat("N", 4200) + "\n-- m --\n",
 }
 
 var unquotable = []string{"-- m --", "a\n-- m --", "\xff\n-- m --\n"}
@@ -129,7 +131,7 @@ func gen(r *rand.Rand, idx int) *gscript {
 	r.Shuffle(len(gnames), func(i, j int) { gnames[i], gnames[j] = gnames[j], gnames[i] })
 	var golds []golden
 	for i := 0; i < k; i++ {
-		golds = append(golds, golden{gnames[i], fixNL(contents[r.Intn(len(contents)-4)])}) // as txtar stores it
+		golds = append(golds, golden{gnames[i], fixNL(contents[r.Intn(len(contents)-5)])}) // as txtar stores it
 	}
 	// a data entry that is never a golden
 	extra := golden{"input.txt", "input data\n"}
